@@ -302,7 +302,7 @@ fn exec(op: &str, args: &[&str], expected: &str) -> Option<Verdict> {
         "oracle_report" => {
             let (n, silent, only, aba, sq) = (ORACLE_CHECKED.load(AtOrd::Relaxed), ORACLE_SILENT.load(AtOrd::Relaxed), ORACLE_ONLY.load(AtOrd::Relaxed), ABA_RERUNS.load(AtOrd::Relaxed), SEQ_MEMBERS.load(AtOrd::Relaxed));
             let (gi, gs, dv) = (GIANT_CASES.load(AtOrd::Relaxed), GIANT_SHAPED.load(AtOrd::Relaxed), DIFF_VALIDATED.load(AtOrd::Relaxed));
-            let text = format!("ok report: so far the harness-native reference agreed with the full model answer on {n} cases (no opinion on {silent}), {only} huge cases compared with the reference only, {aba} A-B-A re-runs, {sq} seq members; {gi} giant cases compared in place with the reference ({gs} of them with the model's result shape), the in-place comparison itself cross-checked against the text comparison on {dv} small cases");
+            let text = format!("ok report: ref=model on {n} cases (no opinion {silent}); vs ref only: {only} huge, {gi} giant ({gs} with model shape); in-place compare x-checked on {dv}; {aba} A-B-A; {sq} seq members");
             if args.first() == Some(&"final") && n < 1000 { return Some(Verdict::Mismatch { observed: text, detail: "the reference was compared with the model on fewer than 1000 cases".into() }); }
             if args.first() == Some(&"final") && gi > 0 && dv < 1000 { return Some(Verdict::Mismatch { observed: text, detail: "the in-place comparison used for the giant cases was cross-checked on fewer than 1000 small cases".into() }); }
             return Some(Verdict::Match(text));
@@ -537,8 +537,9 @@ fn exec_single(op: &str, args: &[&str], expected: &str) -> Option<Verdict> {
             ORACLE_CHECKED.fetch_add(1, AtOrd::Relaxed);
             // part 3: the in-place comparison used for the giant cases, cross-checked here against the text comparison.  The same
             // plain call once more, judged by `diff_result` against the reference's structured answer: it must say "equal" exactly
-            // when the observed text equals the reference text (every 3rd case and all cases above 200 bytes of array text)
-            if (args[0].len() > 200 || ORACLE_CHECKED.load(AtOrd::Relaxed) % 3 == 0) && !observed.starts_with("DIVERGENCE") {
+            // when the observed text equals the reference text (every 7th case and every 2nd case above 200 bytes of array text)
+            let tick = ORACLE_CHECKED.load(AtOrd::Relaxed);
+            if ((args[0].len() > 200 && tick % 2 == 0) || tick % 7 == 0) && !observed.starts_with("DIVERGENCE") {
                 if let (Some(structured), Some(res)) = (native_structured(op, args), plain_result(op, args)) {
                     let text_equal = observed == r || (class_of(&observed) == "err" && class_of(&r) == "err");
                     let in_place = match &res { Ok(x) => diff_result(x, &structured), Err(()) => Err("panic".to_string()) };
@@ -1049,15 +1050,15 @@ fn robustness3(thorough: bool, seed: u64, out: &mut dyn FnMut(String)) {
     if thorough { ur.extend(vec![vec![1025, 1, 1023], vec![2, 3, 5, 34_953], vec![M + 3, 1]]); }
     for sh in &ur { k += 1; out(format!("unpack_g {} none none {}", g(sh, "p1", thorough), spell(k % 2 == 0, k))); out(format!("roundtrip_g {} none {}", g(sh, "p0", false), spell(k % 2 == 1, k))); }
     // (11.d) unpacking lanes above 2^20 bytes
-    let mut ul: Vec<(Vec<usize>, isize, &str)> = vec![(vec![1, M + 5], 1, "none"), (vec![M + 3, 1], 0, "none"), (vec![2, M + 7], -1, "-5")];
-    if thorough { ul.extend(vec![(vec![M + 64, 2], 0, "none"), (vec![1, 2, M + 5, 1], 2, "none"), (vec![2, M + 1, 1], -2, "8388609"), (vec![1, 2 * M + 3], 1, "16777217"), (vec![2 * M + 1, 1], -2, "none"), (vec![3, M + 9], 1, "none")]); }
+    let mut ul: Vec<(Vec<usize>, isize, &str)> = vec![(vec![1, M + 5], 1, "none"), (vec![M + 3, 1], 0, "none")];
+    if thorough { ul.extend(vec![(vec![2, M + 7], -1, "-5"), (vec![M + 64, 2], 0, "none"), (vec![1, 2, M + 5, 1], 2, "none"), (vec![2, M + 1, 1], -2, "8388609"), (vec![1, 2 * M + 3], 1, "16777217"), (vec![2 * M + 1, 1], -2, "none"), (vec![3, M + 9], 1, "none")]); }
     for (sh, ax, c) in &ul {
         k += 1;
         out(format!("unpack_g {} {ax} {c} {}", g(sh, ["p0", "p1", "p2", "p3"][k % 4], thorough), spell(k % 2 == 0, k)));
     }
     // (11.e) the round trip at giant sizes, flat and by axis (the packing half sees 2^23 + 40 .. 2^24 + 8 bits)
-    let mut rt: Vec<(Vec<usize>, &str)> = vec![(vec![M + 5], "none"), (vec![2 * M + 1], "none"), (vec![1, M + 5], "-1")];
-    if thorough { rt.extend(vec![(vec![M + 1, 1], "0"), (vec![2, M + 3], "1"), (vec![M + M / 2 + 1], "none"), (vec![2 * M + 1], "0"), (vec![1, 1, M + 65], "2")]); }
+    let mut rt: Vec<(Vec<usize>, &str)> = vec![(vec![M + 5], "none"), (vec![2 * M + 1], "none")];
+    if thorough { rt.extend(vec![(vec![1, M + 5], "-1"), (vec![M + 1, 1], "0"), (vec![2, M + 3], "1"), (vec![M + M / 2 + 1], "none"), (vec![2 * M + 1], "0"), (vec![1, 1, M + 65], "2")]); }
     for (sh, ax) in &rt {
         k += 1;
         out(format!("roundtrip_g {} {ax} {}", g(sh, ["p0", "p1", "p3"][k % 3], thorough), spell(k % 2 == 0, k)));
